@@ -119,10 +119,14 @@ pub fn decide(sigs: &[Sig], b: &[u8], datagram: bool) -> Decision {
         match best {
             None => best = Some((k, l)),
             Some((bk, bl)) => {
-                if l < bl {
+                // a signature without end anchor is completed by its last byte; an end-anchored one
+                // of the same length only by the end of the datagram, i.e. strictly later
+                let key = (l, s.end_anchored);
+                let bkey = (bl, sigs[bk].end_anchored);
+                if key < bkey {
                     best = Some((k, l));
                     ambiguous = false;
-                } else if l == bl {
+                } else if key == bkey {
                     let a = &sigs[bk];
                     if a.app != s.app || a.rpc_tcp_form != s.rpc_tcp_form {
                         ambiguous = true;
@@ -223,4 +227,29 @@ pub fn identify_reply(r: &[u8]) -> Option<App> {
         return Some(App::Dns);
     }
     None
+}
+
+/// A payload that runs along two signatures at once: it completes `target` (exactly, so that an
+/// end-anchored target ends with the datagram) and carries, at the target's wildcard positions,
+/// the literals of a companion signature. Used for real datagrams and first segments (the
+/// matcher walks of C10 do the same against the compiled matcher alone).
+pub fn companion_payload(rng: &mut crate::rng::Rng) -> Vec<u8> {
+    let sigs = signatures();
+    let t = &sigs[rng.usize_below(sigs.len())];
+    let c = &sigs[rng.usize_below(sigs.len())];
+    let mut v = Vec::with_capacity(t.pat.len() + 8);
+    for (j, p) in t.pat.iter().enumerate() {
+        match p {
+            Some(b) => v.push(*b),
+            None => match c.pat.get(j) {
+                Some(Some(b)) if !rng.chance(1, 16) => v.push(*b),
+                _ => v.push(rng.u8()),
+            },
+        }
+    }
+    if !rng.chance(2, 3) {
+        let extra = rng.range(1, 12) as usize;
+        v.extend_from_slice(&rng.bytes(extra));
+    }
+    v
 }
